@@ -330,6 +330,35 @@ func orderCases() []orderCase {
 		if !empty && (!d.member(R, I.lo) || !d.member(R, I.hi)) {
 			return "the interval does not contain its own endpoints"
 		}
+		// the result denotes the arc from lo to hi with -Pi identified with Pi; (Pi, -Pi) is the empty and (-Pi, Pi) the
+		// full interval, so rebuilding an interval from its own endpoints gives the same point set
+		raw := func(q int) bool {
+			if q == 0 {
+				q = d.top
+			}
+			if I.lo == d.top && I.hi == 0 {
+				return false
+			}
+			if I.lo == 0 && I.hi == d.top {
+				return true
+			}
+			lo, hi := I.lo, I.hi
+			if lo == 0 {
+				lo = d.top
+			}
+			if hi == 0 {
+				hi = d.top
+			}
+			if lo <= hi {
+				return lo <= q && q <= hi
+			}
+			return q >= lo || q <= hi
+		}
+		for _, q := range d.probes() {
+			if d.member(R, q) != raw(q) {
+				return fmt.Sprintf("the result does not denote the arc from lo to hi (probe rank %d): an interval rebuilt from its own endpoints has a different point set - e.g. the empty interval (Pi, -Pi) becomes the singleton {Pi}", q)
+			}
+		}
 		return ""
 	}})
 	return cs
